@@ -161,10 +161,15 @@ package ucfg
 //@ ensures mergedWith(c, from, options)
 
 //@ ghost func copyOf(r value, x value) bool
+// cctx(v): the context value v was created with (heap-independent name; the implementations of cpy prove
+// that it is what they store: see the [refine] clauses)
+//@ ghost func cctx(v value) context
 
 //@ func iface:value.cpy :: self, c -> r
 //@ pure
 //@ ensures r != nil && copyOf(r, self) && fresh(r)
+//@ ensures cctx(r) == c
+//@ ensures typeof(r) == typeof(self)
 
 //@ func (*fields).append
 //@ props C01 C10
@@ -275,6 +280,7 @@ package ucfg
 //@ modifies f.d, map(f.d)
 //@ ensures [in] has(f.d, name) && f.d[name] == v
 //@ ensures [frame] old(f.d) != nil ==> f.d == old(f.d)
+//@ ensures [newmap] old(f.d) == nil ==> fresh(f.d)
 //@ ensures [others] forall k string :: k != name ==> has(f.d, k) == old(has(f.d, k)) && (has(f.d, k) ==> f.d[k] == old(f.d[k]))
 //@ ensures [arr] f.a == old(f.a)
 
@@ -624,3 +630,128 @@ package ucfg
 //@ ensures err != nil ==> r == nil
 //@ ensures err == nil ==> r != nil && fresh(r)
 //@ ensures err == nil ==> forall k string :: forall x interface{} :: single(asmap(from), k, x) ==> builtFrom1(r, k, x, opts)
+
+// ---------------------------------------------------------------- value constructors and copies (C10 freshness, C15 contexts, C02 late binding)
+
+//@ func newBool
+//@ props C10 C15
+//@ pure
+//@ ensures [fresh] fresh(result) && result.cfgPrimitive.ctx == ctx && result.cfgPrimitive.metadata == m && result.b == b
+
+//@ func newInt
+//@ props C10 C15
+//@ pure
+//@ ensures [fresh] fresh(result) && result.cfgPrimitive.ctx == ctx && result.cfgPrimitive.metadata == m && result.i == i
+
+//@ func newUint
+//@ props C10 C15
+//@ pure
+//@ ensures [fresh] fresh(result) && result.cfgPrimitive.ctx == ctx && result.cfgPrimitive.metadata == m && result.u == u
+
+//@ func newFloat
+//@ props C10 C15
+//@ pure
+//@ ensures [fresh] fresh(result) && result.cfgPrimitive.ctx == ctx && result.cfgPrimitive.metadata == m && result.f == f
+
+//@ func newString
+//@ props C10 C15
+//@ pure
+//@ ensures [fresh] fresh(result) && result.cfgPrimitive.ctx == ctx && result.cfgPrimitive.metadata == m && result.s == s
+
+//@ func newDyn
+//@ props C10 C15 C02
+//@ pure
+//@ ensures [fresh] fresh(result) && result.cfgPrimitive.ctx == ctx && result.cfgPrimitive.metadata == m && result.dyn == val
+
+//@ func (*cfgPrimitive).meta
+//@ requires p != nil
+//@ pure
+//@ ensures result == p.metadata
+
+//@ func (*cfgPrimitive).Context
+//@ requires p != nil
+//@ pure
+//@ ensures result == p.ctx
+
+//@ func (*cfgPrimitive).SetContext
+//@ props C15
+//@ requires p != nil
+//@ modifies p.ctx
+//@ ensures [set] p.ctx == c && p.metadata == old(p.metadata)
+
+//@ func (*cfgBool).cpy
+//@ props C10 C15
+//@ requires c != nil
+//@ pure
+//@ ensures [refine] result != nil && fresh(result) && ctxof(result) == ctx && typeof(result) == *cfgBool && result.(*cfgBool).b == c.b && metaof(result) == c.cfgPrimitive.metadata
+
+//@ func (*cfgInt).cpy
+//@ props C10 C15
+//@ requires c != nil
+//@ pure
+//@ ensures [refine] result != nil && fresh(result) && ctxof(result) == ctx && typeof(result) == *cfgInt && result.(*cfgInt).i == c.i && metaof(result) == c.cfgPrimitive.metadata
+
+//@ func (*cfgUint).cpy
+//@ props C10 C15
+//@ requires c != nil
+//@ pure
+//@ ensures [refine] result != nil && fresh(result) && ctxof(result) == ctx && typeof(result) == *cfgUint && result.(*cfgUint).u == c.u && metaof(result) == c.cfgPrimitive.metadata
+
+//@ func (*cfgFloat).cpy
+//@ props C10 C15
+//@ requires c != nil
+//@ pure
+//@ ensures [refine] result != nil && fresh(result) && ctxof(result) == ctx && typeof(result) == *cfgFloat && same(result.(*cfgFloat).f, c.f) && metaof(result) == c.cfgPrimitive.metadata
+
+//@ func (*cfgString).cpy
+//@ props C10 C15
+//@ requires c != nil
+//@ pure
+//@ ensures [refine] result != nil && fresh(result) && ctxof(result) == ctx && typeof(result) == *cfgString && result.(*cfgString).s == c.s && metaof(result) == c.cfgPrimitive.metadata
+
+//@ func (*cfgNil).cpy
+//@ props C10 C15
+//@ requires c != nil
+//@ pure
+//@ ensures [refine] result != nil && fresh(result) && ctxof(result) == ctx && typeof(result) == *cfgNil && metaof(result) == c.cfgPrimitive.metadata
+
+//@ func (*cfgDynamic).cpy :: d, c -> result
+//@ props C10 C15 C02
+//@ requires d != nil
+//@ pure
+//@ ensures [refine] result != nil && fresh(result) && ctxof(result) == c && typeof(result) == *cfgDynamic && metaof(result) == d.cfgPrimitive.metadata
+//@ ensures [late_binding] result.(*cfgDynamic).dyn == d.dyn
+
+//@ iface value.Context :: self -> r
+//@ pure
+//@ ensures r == ctxof(self)
+
+//@ func (cfgSub).cpy :: c, ctx -> r
+//@ props C10 C15
+//@ requires c.c != nil && c.c.fields != nil
+//@ requires forall k string :: has(c.c.fields.d, k) ==> c.c.fields.d[k] != nil
+//@ requires forall j int :: 0 <= j && j < len(c.c.fields.a) ==> c.c.fields.a[j] != nil
+//@ pure
+//@ ensures [type] typeof(r) == cfgSub && r.(cfgSub).c != nil && r.(cfgSub).c.fields != nil
+//@ ensures [fresh] fresh(r.(cfgSub).c) && fresh(r.(cfgSub).c.fields)
+//@ ensures [ctx] r.(cfgSub).c.ctx == ctx && r.(cfgSub).c.metadata == c.c.metadata
+//@ ensures [dictdom] forall k string :: has(r.(cfgSub).c.fields.d, k) == has(c.c.fields.d, k)
+//@ ensures [dictfresh] r.(cfgSub).c.fields.d == nil || fresh(r.(cfgSub).c.fields.d)
+//@ ensures [dictcopies] forall k string :: has(c.c.fields.d, k) ==> copyOf(r.(cfgSub).c.fields.d[k], c.c.fields.d[k]) && fresh(r.(cfgSub).c.fields.d[k])
+//@ ensures [dictctx] forall k string :: has(c.c.fields.d, k) ==> cctx(r.(cfgSub).c.fields.d[k]).parent == r && cctx(r.(cfgSub).c.fields.d[k]).field == ctxof(c.c.fields.d[k]).field
+//@ ensures [arrlen] len(r.(cfgSub).c.fields.a) == len(c.c.fields.a) && ((r.(cfgSub).c.fields.a == nil) == (c.c.fields.a == nil))
+//@ ensures [arrfresh] c.c.fields.a != nil ==> fresh(r.(cfgSub).c.fields.a)
+//@ ensures [arrcopies] forall j int :: 0 <= j && j < len(c.c.fields.a) ==> copyOf(r.(cfgSub).c.fields.a[j], c.c.fields.a[j]) && fresh(r.(cfgSub).c.fields.a[j])
+//@ ensures [arrctx] forall j int :: 0 <= j && j < len(c.c.fields.a) ==> cctx(r.(cfgSub).c.fields.a[j]).parent == r && cctx(r.(cfgSub).c.fields.a[j]).field == ctxof(c.c.fields.a[j]).field
+//@ loop 1 invariant newC.c != nil && fresh(newC.c) && newC.c.ctx == ctx && newC.c.metadata == c.c.metadata && fresh(fields) && fields != newC.c
+//@ loop 1 invariant fields.a == nil && (fields.d == nil || fresh(fields.d))
+//@ loop 1 invariant forall k string :: has(fields.d, k) == visited(k)
+//@ loop 1 invariant forall k string :: visited(k) ==> has(dict, k) && copyOf(fields.d[k], dict[k]) && fresh(fields.d[k]) && cctx(fields.d[k]).parent == toAny(newC) && cctx(fields.d[k]).field == ctxof(dict[k]).field
+//@ loop 2 invariant newC.c != nil && fresh(newC.c) && newC.c.ctx == ctx && newC.c.metadata == c.c.metadata && fresh(fields) && fields != newC.c
+//@ loop 2 invariant -1 <= rangeindex && rangeindex < len(arr) && len(fields.a) == len(arr) && fresh(fields.a)
+//@ loop 2 invariant fields.d == nil || fresh(fields.d)
+//@ loop 2 invariant arr == c.c.fields.a && forall j int :: 0 <= j && j < len(arr) ==> arr[j] != nil
+//@ loop 2 invariant forall k string :: has(fields.d, k) == has(dict, k)
+//@ loop 2 invariant forall k string :: has(dict, k) ==> copyOf(fields.d[k], dict[k]) && fresh(fields.d[k]) && cctx(fields.d[k]).parent == toAny(newC) && cctx(fields.d[k]).field == ctxof(dict[k]).field
+//@ loop 2 invariant forall j int :: 0 <= j && j <= rangeindex ==> copyOf(fields.a[j], arr[j]) && fresh(fields.a[j]) && cctx(fields.a[j]).parent == toAny(newC) && cctx(fields.a[j]).field == ctxof(arr[j]).field
+//@ loop 2 decreases len(arr) - rangeindex
